@@ -318,6 +318,18 @@ def build(spec, ctx, names=None):
         # the user's own hooks of a composite: logged (implementation-only line HK), never calling super()
         b.initialise = lambda nid=nid: ctx.hooks.append("ci%d" % nid)
         b.terminate = lambda new_status, nid=nid: ctx.hooks.append("ct%d:%s" % (nid, ST[new_status]))
+    if t == "D":
+        # a decorator is a behaviour too: its own initialise() / terminate() are logged on the same line (and run)
+        oi, ot = b.initialise, b.terminate
+
+        def d_init(nid=nid, oi=oi):
+            ctx.hooks.append("di%d" % nid)
+            return oi()
+
+        def d_term(new_status, nid=nid, ot=ot):
+            ctx.hooks.append("dt%d:%s" % (nid, ST.get(new_status, "?")))
+            return ot(new_status)
+        b.initialise, b.terminate = d_init, d_term
     wrap_tick(b, nid, ctx)
     return b
 
@@ -520,6 +532,14 @@ class LogVisitor(py_trees.visitors.VisitorBase):
     def finalise(self):
         self.r.mlog.append("vf%d" % self.j)
 
+    # visitors may compare equal without being the same object (value equality "by configuration", dataclasses):
+    # every registered visitor takes part all the same
+    def __eq__(self, other):
+        return isinstance(other, LogVisitor)
+
+    def __hash__(self):
+        return 1
+
 
 def _mgr_config(self, toks):
     d = dict(t.split("=", 1) for t in toks[1:] if "=" in t)
@@ -527,6 +547,12 @@ def _mgr_config(self, toks):
     self.hcounts = []
     self.snap = None
     tree = self.tree
+    # another tree of the same process with its own handlers and visitor: nothing registered there belongs to this tree
+    decoy = py_trees.trees.BehaviourTree(py_trees.behaviours.Success(name="decoy"))
+    decoy.add_pre_tick_handler(lambda t: self.mlog.append("decoyPre"))
+    decoy.add_post_tick_handler(lambda t: self.mlog.append("decoyPost"))
+    decoy.add_visitor(LogVisitor(99, True, self))
+    self.decoy = decoy
     for j, c in enumerate(d.get("v", "")):
         if c == "s":
             v = py_trees.visitors.SnapshotVisitor()
@@ -847,7 +873,7 @@ def build_idiom(toks, ctx):
             name="both", policy=py_trees.common.ParallelPolicy.SuccessOnAll(synchronise=False),
             children=[mk(subs[:n]), mk(subs[n:])])
     if kind == "eitheror":
-        ns, n = rest[0], int(rest[1])
+        ns, n = ("" if rest[0] == "-" else rest[0]), int(rest[1])      # `-`: the empty (root) namespace
         rest = rest[2:]
         conds = []
         for _ in range(n):
